@@ -183,3 +183,21 @@ Example inner_violation_not_repairable :
   snd (step [] [{| i_form := IExplicit; i_pred := PGe "x" 0 |}] {| s_inst := [("x", VInt 1)]; s_enabled := true |}
             (OCallB [BInner [(true, ("x", VInt (-1)))] false; BRaw "x" (VInt 1)] false 7)) = InvError.
 Proof. reflexivity. Qed.
+
+(* ---- every state reached by a history ---- *)
+Definition guarded (o : iop) : bool := match o with OSet _ _ | OCall _ _ _ | OCallB _ _ _ => true | _ => false end.
+Fixpoint history_ok (cls : attrs) (invs : list inv) (s : istate) (h : list iop) : Prop :=
+  match h with
+  | [] => True
+  | o :: t => (s_enabled s = true -> guarded o = true -> completed (snd (step cls invs s o)) = true -> all_hold cls invs (fst (step cls invs s o)))
+              /\ history_ok cls invs (fst (step cls invs s o)) t
+  end.
+Theorem every_history_ok cls invs h : forall s, history_ok cls invs s h.
+Proof.
+  induction h as [|o t IH]; intro s; cbn [history_ok]; [exact I|]. split; [|apply IH].
+  intros He Hg Hc. destruct (step cls invs s o) as [s1 r] eqn:E. cbn [fst snd] in *.
+  destruct o as [n v|sets raises ret|ret|b|body raises ret]; try discriminate.
+  - exact (completed_implies_inv cls invs s (OSet n v) s1 r He E Hc).
+  - exact (completed_implies_inv cls invs s (OCall sets raises ret) s1 r He E Hc).
+  - exact (callb_completed_implies_inv cls invs s body raises ret s1 r He E Hc).
+Qed.
